@@ -16,5 +16,5 @@ echo "== /verif check $P $TIER against the change"
 cd /verif
 PYTHONPATH=$WT:. PYTHONDONTWRITEBYTECODE=1 PYTHONHASHSEED=0 /venv/bin/python -m vf.run $P $TIER 2>&1 | grep -E "^VIOLATION|bucket=|^C[0-9]+ |HARNESS" | cut -c1-220 | head -${MUT_LINES:-8}
 git -C $WT checkout -q -- .; git -C $WT clean -fdq
-git -C /verif checkout -q -- evidence 2>/dev/null
+git -C /verif checkout -q -- ':(glob)evidence/*.json' 2>/dev/null
 mkdir -p seeded/$P-$DK && cp $SRC/patch$K.diff seeded/$P-$DK/patch.diff && cp $SRC/demo$K.py seeded/$P-$DK/demo.py && cp $SRC/meta$K.json seeded/$P-$DK/meta.json
